@@ -43,6 +43,9 @@ type MemStore struct {
 	Gate        chan struct{}
 	gateReached int32
 
+	// failNext > 0: the next Save fails (a full disk, an unwritable directory) without storing anything
+	failNext int32
+
 	// Inner, if set, is the real store behind the gate (a JsonDataStore on disk).
 	Inner store.DataStore
 	Dir   string
@@ -92,6 +95,10 @@ func (s *MemStore) Save(d *store.PersistedData) error {
 	if gate != nil {
 		atomic.StoreInt32(&s.gateReached, 1)
 		<-gate
+	}
+	if atomic.LoadInt32(&s.failNext) > 0 && atomic.LoadInt32(&s.Explicit) != 0 {
+		atomic.AddInt32(&s.failNext, -1)
+		return fmt.Errorf("injected by the harness: no space left on device")
 	}
 	if atomic.LoadInt32(&s.Explicit) == 0 {
 		// a save of the persist loop: the first one follows the first change at once (the harness waits
@@ -1027,6 +1034,30 @@ func (m *Machine) ActSave(t *rapid.T) {
 	}
 	atomic.AddInt32(&m.mem.Explicit, -1)
 	m.settle("save")
+	m.afterStep()
+}
+
+// ActFailedSave: one explicit save that fails in the store (a transient fault). The runner logs it; nothing else
+// changes - in particular later saves, the persist loop and the final save of a shutdown work as before.
+func (m *Machine) ActFailedSave(t *rapid.T) {
+	m.stimulus("save (the store fails this once)")
+	m.w.Stats.hit("failed-save")
+	atomic.StoreInt32(&m.mem.failNext, 1)
+	atomic.AddInt32(&m.mem.Explicit, 1)
+	if !m.w.Call("SaveToStore", func() { m.w.PR.SaveToStore() }) {
+		m.blocked()
+	}
+	atomic.AddInt32(&m.mem.Explicit, -1)
+	atomic.StoreInt32(&m.mem.failNext, 0)
+	m.settle("failed save")
+	m.afterStep()
+	// the next save works
+	atomic.AddInt32(&m.mem.Explicit, 1)
+	if !m.w.Call("SaveToStore", func() { m.w.PR.SaveToStore() }) {
+		m.blocked()
+	}
+	atomic.AddInt32(&m.mem.Explicit, -1)
+	m.settle("save after a failed save")
 	m.afterStep()
 }
 
